@@ -1,6 +1,8 @@
 #ifndef PRIVATE_EMAIL_H
 #define PRIVATE_EMAIL_H
 
+#include <string.h>
+#include <strings.h>
 #include "auto_tld.h"
 
 #ifdef HAVE_IDNKIT
@@ -74,20 +76,32 @@
         return result; \
     } \
 \
-    if (ISDIGIT(brs[1])) { /* ip address, possibly ipv4 */ \
-        if (is_ipaddr (brs + 1, bre) == 0) { \
-            result->rc = inverse(EEAV_IPADDR_INVALID); \
-            return result; \
-        } \
-        result->is_ipv4 = true; \
+    if (bre + 1 != end) { /* nothing may follow the bracket */ \
+        result->rc = inverse(EEAV_IPADDR_INVALID); \
+        return result; \
     } \
-    else { /* try ipv6 */ \
-        ch = strchr (brs + 1, ':'); \
-        if ((ch == NULL) || (is_ipaddr (ch + 1, bre) == 0)) { \
+\
+    if (strncasecmp (brs + 1, "IPv6:", 5) == 0) { /* IPv6-address-literal */ \
+        if (is_ipv6 (brs + 6, bre) == 0) { \
             result->rc = inverse(EEAV_IPADDR_INVALID); \
             return result; \
         } \
         result->is_ipv6 = true; \
+    } \
+    else if (memchr (brs + 1, ':', bre - brs - 1) != NULL) { \
+        /* ipv6 without the tag: tolerated */ \
+        if (is_ipv6 (brs + 1, bre) == 0) { \
+            result->rc = inverse(EEAV_IPADDR_INVALID); \
+            return result; \
+        } \
+        result->is_ipv6 = true; \
+    } \
+    else { /* ipv4 */ \
+        if (is_ipv4 (brs + 1, bre) == 0) { \
+            result->rc = inverse(EEAV_IPADDR_INVALID); \
+            return result; \
+        } \
+        result->is_ipv4 = true; \
     } \
     /* valid ip addr. */ \
     result->rc = EEAV_NO_ERROR; \
